@@ -90,3 +90,36 @@ def used_objects(kind="pub_procs", prop="C06"):
     c.ensures("exports_untouched_and_result_is_new", fr, role="frame")
     c.no_raise = True
     return c
+
+
+def use_loop_obligations(prop="C06", replay=None):
+    """FortranCodeUnit.correlate, the loop over the scope's USE statements: the four tables returned by `mod.get_used_entities(extra)` (under contract: exactly the
+    accessible names, under their local names) are merged into the scope's name tables with `dict.update` - a use-associated name *replaces* whatever the scope inherited
+    from its host under that name (F2018 19.5.1.4: a use-associated entity hides the host's), it is not merely added when the name is still free."""
+    import ast
+    from harness import loader
+    from harness.core import OR, PROVED, REFUTED, UNKNOWN
+    fn = loader.find_def("ford.sourceform", "FortranCodeUnit.correlate")
+    loops = [n for n in ast.walk(fn) if isinstance(n, ast.For) and ast.unparse(n.iter) == "self.uses" and any("get_used_entities" in ast.unparse(s) for s in n.body)]
+    oid = f"{prop}.S.FortranCodeUnit.correlate.use_associated_names_replace_inherited_ones"
+    if len(loops) != 1:
+        return [OR(id=oid, status=UNKNOWN, kind="S", target="ford.sourceform.FortranCodeUnit.correlate", detail=f"USE loop: {len(loops)} matches")]
+    loop = loops[0]
+    call = [s for s in loop.body if isinstance(s, ast.Assign) and "get_used_entities" in ast.unparse(s.value)]
+    if len(call) != 1 or not isinstance(call[0].targets[0], ast.Tuple) or len(call[0].targets[0].elts) != 4:
+        return [OR(id=oid, status=UNKNOWN, kind="S", target="ford.sourceform.FortranCodeUnit.correlate", detail="`a, b, c, d = mod.get_used_entities(extra)` not found")]
+    names = [e.id for e in call[0].targets[0].elts]
+    tables = ["self.all_procs", "self.all_absinterfaces", "self.all_types", "self.all_vars"]
+    stmts = [ast.unparse(s) for s in loop.body if isinstance(s, ast.Expr)]
+    out = []
+    for tab, nm in zip(tables, names):
+        ok = f"{tab}.update({nm})" in stmts
+        r = OR(id=f"{oid}.{tab.split('.')[-1]}", status=PROVED if ok else REFUTED, kind="S", role="post", backend="ast", target="ford.sourceform.FortranCodeUnit.correlate",
+               desc=f"`{tab}.update({nm})` is a statement of the USE loop: imported names overwrite inherited ones")
+        if not ok:
+            r.witness = {"statements_of_the_loop": stmts[:8]}
+            r.detail = f"{tab} is not updated with the imported table by dict.update at the top level of the loop"
+            if replay:
+                r.replay = replay()
+        out.append(r)
+    return out
